@@ -176,6 +176,8 @@ var c17Cfgs = []mcp.VerifRetryConfig{
 	{InitialBackoff: time.Millisecond, BackoffFactor: 1, MaxBackoff: time.Millisecond},
 	{InitialBackoff: 30 * time.Second, BackoffFactor: 10, MaxBackoff: 5 * time.Minute},
 	{InitialBackoff: 500 * time.Millisecond, BackoffFactor: 1.5, MaxBackoff: time.Second},
+	{InitialBackoff: 40 * time.Millisecond, BackoffFactor: 2.5, MaxBackoff: 5 * time.Minute},
+	{InitialBackoff: 7 * time.Millisecond, BackoffFactor: 1.1, MaxBackoff: 9 * time.Millisecond},
 }
 
 func c17ExecCases(tier string) []c17ExecCase {
@@ -206,6 +208,15 @@ func c17ExecCases(tier string) []c17ExecCase {
 			}
 		}
 		gen(nil)
+	}
+	// every configuration through the longest all-transient script (all waits of the sequence), in both tiers
+	for m := 1; m <= 10; m++ {
+		if tier != "thorough" && m > 4 && m != 10 {
+			continue
+		}
+		for c := range c17Cfgs {
+			out = append(out, c17ExecCase{m, []int{5, 6, 3, 4, 7, 5, 6, 3, 4, 7, 5, 5}, c, -1})
+		}
 	}
 	// cancellation at every instant of an all-transient script
 	for m := 1; m <= 3; m++ {
@@ -288,9 +299,10 @@ func c17ExecEval(tier string, i int) CaseResult {
 				for k := 1; k < a; k++ {
 					mult *= cfg.BackoffFactor
 				}
-				w := time.Duration(float64(cfg.InitialBackoff) * mult)
-				if w > cfg.MaxBackoff {
-					w = cfg.MaxBackoff
+				// min(initial*factor^(a-1), max) in real arithmetic (the product may exceed the range of time.Duration)
+				w := cfg.MaxBackoff
+				if f := float64(cfg.InitialBackoff) * mult; f <= float64(cfg.MaxBackoff) {
+					w = time.Duration(f)
 				}
 				wantWaits = append(wantWaits, w)
 			}
